@@ -30,6 +30,7 @@ EPS_CAP = 1e-8
 LN10 = math.log(10.0)
 KEY_ALT = "add-formula-present-undersaturated"
 KEY_REL = "related-exchanger-ignores-predissolved-amount"
+KEY_RETRY = "related-exchanger-capacity-after-failed-attempt"
 KEY_NEG = "negative-residual-moles-after-complete-dissolution"
 KEY_PREC = "related-exchanger-of-precipitate-only-phase-reset"
 
@@ -194,7 +195,11 @@ def valid_phase(moles, d, initial, opt):
 def direct_oracle(spec, c):
     """evaluate the property statement on the implementation's own public output.  Returns (problems, stats, alt_problems)"""
     blocks = parse_blocks(c["lines"])
-    problems, alt, rel, prec, neg = [], [], [], [], []
+    problems, alt, rel, prec, neg, retry = [], [], [], [], [], []
+    bigcap = 0.0
+    if "exchange" in spec and "phase" in spec["exchange"]["comps"][0]:
+        x0 = spec["exchange"]["comps"][0]
+        bigcap = x0["prop"] * next((q["moles"] for q in spec["phases"] if q["name"] == x0["phase"]), 0.0)
     st = {"phase_states": {}, "calcs": 0, "ex": 0, "su": 0, "ss_ideal": 0, "ss_binary": 0, "dump_checked": 0}
     prev = {}          # amounts saved at the end of the previous simulation
     cur_sim, last_in_sim, last_step = None, {}, {}
@@ -297,7 +302,11 @@ def direct_oracle(spec, c):
                     msg = (f"block {b['k']}: exchanger related to {x['phase']} holds {sx!r} eq but proportion x moles = {ref!r} "
                            f"(difference {diff!r} eq, proportion*1e-10 = {x['prop'] * 1e-10!r})")
                     pp = next((q for q in spec["phases"] if q["name"] == x["phase"]), {})
-                    if pp.get("opt") == "precipitate_only":
+                    bigcap = max(bigcap, ref, sx)
+                    accumulated = EPS_CAP * (st["calcs"] + 2) * bigcap      # one 1e-8 drift per calculation so far
+                    if abs(diff) <= accumulated:
+                        st["related_accumulated"] = st.get("related_accumulated", 0) + 1
+                    elif pp.get("opt") == "precipitate_only":
                         # set_inert_moles hides the initial amount from the solver: the exchanger is "reset" to the active part
                         ini = (last_in_sim.get(x["phase"], prev[x["phase"]]) if incr else prev[x["phase"]])
                         act = x["prop"] * max(R.get(f"equi:{x['phase']}", 0.0) - ini, 0.0)
@@ -305,8 +314,16 @@ def direct_oracle(spec, c):
                             prec.append(msg + " [phase is precipitate_only: sites follow moles - initial]")
                         else:
                             problems.append(msg)
+                    elif 0 <= diff <= known + accumulated:
+                        rel.append(msg)
+                    elif "Numerical method failed with this set of convergence parameters" in c.get("warn", ""):
+                        # set_and_run_wrapper restores pure phases, solid solutions and kinetics before it retries with other
+                        # convergence parameters, but not the exchanger whose sites were re-sized during the failed attempt
+                        retry.append(msg + " [after failed attempts: 'Numerical method failed with this set of convergence parameters']")
                     else:
-                        (rel if 0 <= diff <= known else problems).append(msg)
+                        problems.append(msg)
+                else:
+                    bigcap = max(bigcap, ref, sx)
             last_step["sys:X"] = sx
         for k in capS:
             if "sys:" + k in R:
@@ -355,6 +372,7 @@ def direct_oracle(spec, c):
     st["rel"] = rel
     st["prec"] = prec
     st["neg"] = neg
+    st["retry"] = retry
     return problems, st, alt
 
 
@@ -429,9 +447,9 @@ def run(ctx):
     ok = ctx.prove([NAME])
     ctx.build_lib()
     exe = ctx.build_harness("ph_assemblage")
-    n = ctx.n(220, 3200)
+    n = ctx.n(400, 12000)
     if not ok:
-        n = max(n, 1600)
+        n = max(n, 6000)
     dbi = {db: db_info(ctx, exe, db) for db in gen.DBS}
     ctx.cov["db_phases"] = {db: len([1 for p in v["phases"].values() if not p["gas"]]) for db, v in dbi.items()}
     specs = [gen.gen_case(ctx.rng, i, dbi) for i in range(n)]
@@ -452,7 +470,7 @@ def run(ctx):
             rels.update(per)
     # probes on a subset of the completed cases with pure phases
     done_pp = [i for i in ids if results[i]["errors"] == 0 and results[i].get("done") and byid[i]["phases"]]
-    npb = min(len(done_pp), ctx.n(40, 400))
+    npb = min(len(done_pp), ctx.n(60, 1200))
     pids = ctx.rng.sample(done_pp, npb) if npb else []
     probes = {i: make_probes(ctx.rng) for i in pids}
     pres = {}
@@ -474,6 +492,7 @@ def run(ctx):
     rel_cases = []
     prec_cases = []
     neg_cases = []
+    retry_cases = []
     for i in ids:
         s, c = byid[i], results[i]
         hist["db"][s["db"]] = hist["db"].get(s["db"], 0) + 1
@@ -541,6 +560,9 @@ def run(ctx):
             rel_cases.append((i, st["rel"]))
         if st["prec"] and not problems:
             prec_cases.append((i, st["prec"]))
+        if st["retry"] and not problems:
+            retry_cases.append((i, st["retry"]))
+        hist["related_accumulated"] = hist.get("related_accumulated", 0) + st.get("related_accumulated", 0)
         if tf:
             tie_broken.append((i, tf[:5]))
     deferred = []
@@ -550,6 +572,9 @@ def run(ctx):
     if rel_cases:
         hist["related_exchanger_offset_cases"] = len(rel_cases)
         deferred.append(("rel", rel_cases[0]))
+    if retry_cases:
+        hist["related_exchanger_after_failed_attempt_cases"] = len(retry_cases)
+        deferred.append(("retry", retry_cases[0]))
     if neg_cases:
         hist["negative_residue_cases"] = len(neg_cases)
         deferred.append(("neg", neg_cases[0]))
@@ -620,6 +645,10 @@ def run(ctx):
                 small, t2, m2 = byid[i], texts[i], msgs
             ctx.finding(KEY_NEG, "a phase that dissolves completely ends with a negative amount: " + m2[0],
                         {"spec": small, "db": small["db"], "input": t2, "oracle": m2[:5]})
+        elif kind == "retry":
+            i, msgs = what
+            ctx.finding(KEY_RETRY, "EXCHANGE related to an equilibrium phase has a wrong number of sites after failed attempts: " + msgs[0],
+                        {"spec": byid[i], "db": byid[i]["db"], "input": texts[i], "oracle": msgs[:5], "warnings": results[i].get("warn", "")[:600]})
         elif kind == "prec":
             i, msgs = what
             ctx.finding(KEY_PREC, "EXCHANGE related to a precipitate_only phase loses its sites: " + msgs[0],
@@ -669,6 +698,8 @@ def replay(ctx, data):
         ctx.finding(KEY_ALT, "replayed input: " + alt[0], data)
     elif "spec" in data and st.get("neg") and not [r for r in vf_main if not (-1e-12 < r[5] < 0)]:
         ctx.finding(KEY_NEG, "replayed input: " + st["neg"][0], data)
+    elif "spec" in data and st.get("retry"):
+        ctx.finding(KEY_RETRY, "replayed input: " + st["retry"][0], data)
     elif "spec" in data and st.get("prec"):
         ctx.finding(KEY_PREC, "replayed input: " + st["prec"][0], data)
     elif "spec" in data and st.get("rel"):
